@@ -661,7 +661,13 @@ func runInterleaved(n int, dotu bool) string {
 // the pipelined Tag interface: n reads posted under one shared tag, answered in order
 func runTagCase(n int, dotu bool, oneSegment bool) string {
 	p := newClntPeer(8192, dotu)
-	ch := make(chan *go9p.Req, 32)
+	// the consumer's channel: roomy, or unbuffered with a consumer that is slow to come back (the replies then
+	// wait their turn inside the library: the order of completion is the order of issue all the same)
+	chcap := 32
+	if n%2 == 1 {
+		chcap = 0
+	}
+	ch := make(chan *go9p.Req, chcap)
 	tag := p.clnt.TagAlloc(ch)
 	fid := p.clnt.FidAlloc()
 	offs := make([]uint64, n)
@@ -695,6 +701,9 @@ func runTagCase(n int, dotu bool, oneSegment bool) string {
 	}
 	order, paired, hang := true, true, false
 	for i := 0; i < n; i++ {
+		if chcap == 0 {
+			time.Sleep(300 * time.Microsecond)
+		}
 		select {
 		case r := <-ch:
 			if r == nil || r.Tc == nil || r.Rc == nil {
